@@ -263,7 +263,7 @@ pub fn ms_b(depth: usize, full: bool) -> SeqSpace {
 
 /// MS-C file rule: block x header form x header position x entries (<= 3)
 pub fn ms_c() -> ListSpace {
-    let blocks = [class("p.A", "a"), class("x.Outer$Inner", "b"), class("x.y.Z$1$2", "c"), class("NoPkg", "d")];
+    let blocks = [class("p.A", "a"), class("x.Outer$Inner", "b"), class("x.y.Z$1$2", "c"), class("NoPkg", "d"), class("x.$Proxy0", "e"), class("$Gson$Types", "f")];
     let headers: [Option<Line>; 5] = [
         None,
         Some(Line::SourceFile("S.kt")),
@@ -274,22 +274,28 @@ pub fn ms_c() -> ListSpace {
     // near misses of the one documented magic file name: ordinary file names, to be reported verbatim
     let magic_near: [S; 8] = ["D8$$SyntheticClass", "R8$SyntheticClass", "R8$$SyntheticClass2", "xR8$$SyntheticClass", "r8$$syntheticclass", "R8$$Synthetic", "$$SyntheticClass", "R8$$SyntheticClass.java"];
     let mut entry_alpha = Vec::new();
-    for c in [None, Some("q.F"), Some("q.F$G")] {
+    // "p.A" as a qualifier: an entry qualified with the name of its own class (in the p.A block) is still an entry
+    // with an explicit class
+    for c in [None, Some("q.F"), Some("q.F$G"), Some("p.A")] {
         entry_alpha.push(method(None, c, "p", "", Orig::None, "m"));
         entry_alpha.push(method(Some((1, 2)), c, "q", "", Orig::SE(3, 4), "m"));
     }
+    // all sequences of <= 3 entries over the first six; the self-qualified entries (last two) in sequences of <= 2
     let mut seqs: Vec<Vec<Line>> = Vec::new();
-    for a in &entry_alpha {
+    for (ia, a) in entry_alpha.iter().enumerate() {
         seqs.push(vec![*a]);
-        for b in &entry_alpha {
+        for (ib, b) in entry_alpha.iter().enumerate() {
             seqs.push(vec![*a, *b]);
-            for c in &entry_alpha {
+            if ia >= 6 || ib >= 6 {
+                continue;
+            }
+            for c in entry_alpha.iter().take(6) {
                 seqs.push(vec![*a, *b, *c]);
             }
         }
     }
     let mut files = Vec::new();
-    for b in blocks {
+    for (bi, b) in blocks.into_iter().enumerate() {
         for h in headers {
             for h2 in headers {
                 // h at position p1, optional second header h2 directly before the last entry
@@ -299,6 +305,10 @@ pub fn ms_c() -> ListSpace {
                     }
                     for es in &seqs {
                         if h2.is_some() && es.len() < 2 {
+                            continue;
+                        }
+                        // the two '$'-leading class shapes: sequences of <= 2 entries
+                        if bi >= 4 && es.len() > 2 {
                             continue;
                         }
                         let mut f = Vec::new();
